@@ -589,8 +589,8 @@ theorem C10_router_slots :
        ("newRouter", "callHandlers", "fresh"), ("newRouter", "pushHandlers", "fresh"),
        ("newRouter", "unknownCall", "fresh"), ("newRouter", "unknownPush", "fresh")] ∧
     Gen.router_get =
-      [("getCall", "lookup:callHandlers;return:h,true;deref:unknownCall;return:h,true;return:nil,false"),
-       ("getPush", "lookup:pushHandlers;return:h,true;deref:unknownPush;return:h,true;return:nil,false")] ∧
+      [("getCall", "lookup:callHandlers;return:h,true;deref:unknownCall;return:h,true|nil,false"),
+       ("getPush", "lookup:pushHandlers;return:h,true;deref:unknownPush;return:h,true|nil,false")] ∧
     getRoute ((kState.setTbl .call [(asc "/a", 1)]).setUnk .call 9) .call (asc "/a") = some (1, false) ∧
     getRoute ((kState.setTbl .call [(asc "/a", 1)]).setUnk .call 9) .call (asc "/b") = some (9, true) ∧
     getRoute ((kState.setTbl .call [(asc "/a", 1)]).setUnk .call 9) .push (asc "/a") = none ∧
